@@ -177,6 +177,35 @@ def run_perm(case, ctx):
                                                                                   else y.tolist())))
             if not ident and k >= 3:
                 ctx.nontriv("perm", cfg)
+            if y.dtype.kind in "iu" and n >= 4:
+                # the same labels as a matrix of label columns, in several memory layouts (DataFrame[[a, b]].to_numpy()
+                # is Fortran-ordered) and as strided 1-D views
+                from vrt import layouts as _lay
+                Y2 = numpy.column_stack([y, y[::-1]])
+                for lay, Ym in (("C", Y2), ("fortran", numpy.asfortranarray(Y2)),
+                                ("transposed-view", numpy.ascontiguousarray(Y2.T).T),
+                                ("1d-strided", _lay.relayout(y, "strided-rows")),
+                                ("1d-column-of-table", _lay.relayout(y, "strided-columns")),
+                                ("1d-negative-stride", _lay.relayout(y, "negative-stride"))):
+                    try:
+                        _, z1 = t.transform(None, Ym)
+                        _, z2 = inv.transform(None, z1)
+                    except Exception as e:
+                        if lay == "C" or Ym.ndim == 1:
+                            ctx.violation("C13/perm/raised/%s/%s/%s" % (lname, lay, type(e).__name__), str(e)[:150],
+                                          cfg=cfg)
+                        else:
+                            ctx.excluded("2-D label matrices refused")
+                        continue
+                    ctx.hit("perm.roundtrip.layouts")
+                    z1a, z2a = numpy.asarray(z1), numpy.asarray(z2)
+                    okl = z2a.shape == Ym.shape and numpy.array_equal(z2a, Ym)
+                    # and the permuted matrix is the element-wise image of the labels
+                    img = numpy.vectorize(lambda v: t.permutation_[v])(Ym) if okl else None
+                    if not okl or z1a.shape != Ym.shape or not numpy.array_equal(z1a.astype(float), img.astype(float)):
+                        ctx.violation("C13/perm/label-roundtrip/layout-%s" % lay, "labels given as a %s array are not "
+                                      "restored by transform + reciprocal (or are permuted at the wrong positions)" % lay,
+                                      cfg=cfg)
             if lname == "int-0..k-1":
                 P = rng.rand(5, k)
                 try:
